@@ -398,8 +398,15 @@ class CallMixin:
             if kind == 'ret':
                 r = con.result(cx, s) if con.result else self.fresh('r')
                 o = Out('ret', value=r, st=s)
+                if con.allocates and isinstance(r, z3.ExprRef) and r.sort() == V:
+                    # whatever the callee allocated lies below the new allocation pointer
+                    s.assume(z3.Implies(V.is_obj(r), V.ref(r) < s.ap))
             else:
-                o = Out('exc', exc=ExcVal(e), st=s)
+                xo = self.fresh('excobj')
+                s.assume(V.is_obj(xo))
+                if e in self.w.ids:
+                    s.assume(clsof(V.ref(xo)) == self.cid(e))
+                o = Out('exc', exc=ExcVal(e, [], ref=xo), st=s)
             posts = con.post(cx, o) if con.post else []
             for label, p in _labelled(posts):
                 s.assume(p)
